@@ -81,6 +81,9 @@ func cmdVerify(args []string) {
 			if *prop != "" && !contains(c.Props, *prop) {
 				continue
 			}
+			if c.Iface {
+				continue
+			}
 			sel = append(sel, c.Fn)
 		}
 	}
